@@ -191,11 +191,60 @@ func triggered(r *rep.Report, e rep.Env) {
 	}
 }
 
+// reservedVars: a `when` pattern may use variables that are called like the three
+// extra bindings (?location, ?ruleId, ?event).  What the match bound is what the
+// condition and the actions see; only names the match left unbound get the extras.
+func reservedVars(r *rep.Report, e rep.Env) {
+	type tc struct {
+		when  map[string]interface{}
+		event map[string]interface{}
+		want  string // location|ruleId|typeof event-or-its-value
+	}
+	cases := []tc{
+		{map[string]interface{}{"motion": "?location"}, map[string]interface{}{"motion": "kitchen"}, "kitchen|rv|object"},
+		{map[string]interface{}{"motion": "?location", "by": "?ruleId"}, map[string]interface{}{"motion": "kitchen", "by": "cat"}, "kitchen|cat|object"},
+		{map[string]interface{}{"payload": "?event"}, map[string]interface{}{"payload": "p1"}, "R|rv|p1"},
+		{map[string]interface{}{"motion": "?where"}, map[string]interface{}{"motion": "kitchen"}, "R|rv|object"},
+	}
+	for ci, c := range cases {
+		for _, kind := range drv.Kinds {
+			for _, withCond := range []bool{false, true} {
+				loc, err := drv.NewLoc("R", kind, drv.MustMem())
+				if err != nil {
+					r.Violate("", "cannot build location", nil)
+					return
+				}
+				rule := core.Map{"when": map[string]interface{}{"pattern": ref.CloneMap(c.when)},
+					"action": map[string]interface{}{"code": "[location, ruleId, (typeof event == 'object') ? 'object' : String(event)].join('|')"}}
+				if withCond {
+					loc.AddFact(drv.Ctx(), "f", core.Map{"t": "x"})
+					rule["condition"] = map[string]interface{}{"pattern": map[string]interface{}{"t": "?t"}}
+				}
+				if _, err := loc.AddRule(drv.Ctx(), "rv", rule); err != nil {
+					r.Violate("", "AddRule failed: "+err.Error(), rep.J{"when": c.when})
+					continue
+				}
+				fr, cond := loc.ProcessEvent(drv.Ctx(), core.Map(ref.CloneMap(c.event)))
+				got := ""
+				if fr != nil && len(fr.Values) == 1 {
+					got = fmt.Sprint(fr.Values[0])
+				}
+				r.Case(true, fmt.Sprint("reserved", ci, kind, withCond))
+				r.Count("reserved_variable_name_cases", 1)
+				if cond != nil || got != c.want {
+					r.Violate("", "a `when` variable named like an extra binding (?location, ?ruleId, ?event): the action did not see what the match bound", rep.J{"state": kind, "when": c.when, "event": c.event, "with_condition": withCond, "action_saw": got, "want": c.want, "condition": cond})
+				}
+			}
+		}
+	}
+}
+
 func main() {
 	e := rep.GetEnv()
 	r := rep.New(e)
 	systemWrites(r, e)
 	triggered(r, e)
+	reservedVars(r, e)
 	nWorlds := e.Pick(150, 1000)
 	arrs := [][]interface{}{{"s1"}, {"s1", "s2"}, {"s1", "s2", "x"}, {}}
 	for wi := 0; wi < nWorlds; wi++ {
